@@ -405,7 +405,31 @@ def run(prog, chk, tier):
                  "stun_proto::agent::StunAgent::StunAgent", "id")
     instants(prog, chk, "stun_proto::agent::StunRequestState::StunRequestState")
     hash_order(prog, chk, seen)
+    clock_argument(prog, chk)
     positive_control(chk)
+
+
+def clock_argument(prog, chk, rule="clock-argument"):
+    """(c, inter-procedural) the instant a request's schedule is computed from is the caller's: in every row of the send table
+    the recorded last_send_time is Some(now) with `now` the argument of send, and in every row of the agent's poll table each
+    request is polled with the `now` given to StunAgent::poll - not an instant remembered from an earlier call or derived from
+    one (an epoch, a rounded tick).  Rows from the E2 decision tables of C05 / C06, only their instant clauses are read here."""
+    from report import Check
+    from rules import agent_e2 as AE
+    sub = Check("C20", "quick", "other", 0)
+    try:
+        AE.send(prog, sub)
+        AE.agent_poll(prog, sub)
+    except Exception as e:
+        chk.fail(rule, "analysis", detail="%s: %s" % (type(e).__name__, e))
+        return
+    rows = [o for o in sub.obs if o["rule"] in ("send-table", "agent-poll-table")]
+    bad = [o for o in rows if not o["ok"] and "(instant provenance)" in (o.get("detail") or "")]
+    failed = [o for o in rows if not o["ok"] and str(o["instance"]).startswith("analysis")]
+    chk.ob(rule, "send records last_send_time = Some(now); poll hands its `now` to every request it polls", not bad and not failed,
+           where=(bad[0].get("where") if bad else None), detail="; ".join("%s: %s" % (o["instance"], o.get("detail")) for o in (bad + failed)[:2])[:600],
+           how="%d rows of the send / agent-poll decision tables (E2 return states)" % len(rows))
+    chk.floor(rule + "-rows", len(rows), 30)
 
 
 def positive_control(chk):
